@@ -294,5 +294,6 @@ func TestC09(t *testing.T) {
 	st := vstat.New("C09")
 	defer finish(t, st)
 	rapidProp(t, st, "mutants", perShard(pick(1600, 60000)), 1, c09Gen, func(p c09Plan) *viol { return c09Run(t, st, p) })
+	rapidProp(t, st, "unusable-keys", perShard(pick(300, 6000)), 3, c09GenBadKey, func(p c09BadKeyPlan) *viol { return c09RunBadKey(t, st, p) })
 	rapidProp(t, st, "live-after-reinit", perShard(pick(48, 1200)), 2, c09GenLive, func(p c09Live) *viol { return c09RunLive(t, st, p) })
 }
